@@ -56,15 +56,17 @@ def _parse_rule(s):
     return pat.strip(), rep.strip()
 
 
-def _lower_struct(text, cname, log):
+def _lower_struct(text, cname, log, subst=()):
     text = cxx.preprocess(text)
+    for a_, b_ in subst:
+        text = text.replace(a_, b_)
     m = re.match(r'\s*(struct|union)\s+(\w+)\s*\{', text)
     kind, name = m.group(1), m.group(2)
     body = text[m.end() - 1:]
     # C++-isms inside header structs
-    body = re.sub(r'\bTINS_END_PACK\b|\bTINS_BEGIN_PACK\b', '', body)
+    body = re.sub(r'\bTINS_END_PACK\b|\bTINS_BEGIN_PACK\b|__attribute__\s*\(\(packed\)\)', '', body)
     body = re.sub(r'\b(\w+)::address_size\b', lambda mm: {'IPv6Address': '16', 'IPv4Address': '4'}.get(mm.group(1), mm.group(0)), body)
-    body = re.sub(r'\baddress_type::address_size\b', '6', body)
+    body = re.sub(r'\b(hw)?address_type::address_size\b', '6', body)
     cname = cname or name
     return 'typedef %s __attribute__((packed)) %s_s %s %s;\n' % (kind, cname, body.rstrip(), cname)
 
@@ -247,7 +249,8 @@ def _expand(u, text, depth=0, mutate=None):
         elif d.startswith('struct '):
             t = d.split()
             cname = t[4] if len(t) > 4 and t[3] == 'as' else None
-            out.append(_lower_struct(cxx.find_struct(t[1], t[2]), cname, None))
+            subst = [tuple(x.split('=', 1)) for x in t[3:] if '=' in x]
+            out.append(_lower_struct(cxx.find_struct(t[1], t[2]), cname, None, subst))
         elif d.startswith('enum '):
             t = d.split()
             e = cxx.preprocess(cxx.find_enum(t[1], t[2]))
